@@ -8,7 +8,7 @@
    PARTIAL by nature: the Go scheduler and memory model, fairness and wall-clock time are outside the model;
    the model proves ownership discipline, exits of waits and deadlock freedom, the watchdog observes liveness. *)
 From GL Require Import Conc.Locks Conc.LocksProofs Conc.LocksDeadlock Conc.LocksInv Conc.LocksInvBg Conc.LocksInvAll
-  Conc.LocksClose.
+  Conc.LocksClose Conc.LocksLate.
 
 (* 1. locks_balanced.  In every reachable state of the repaired code (any number of clients, any schedule,
       any outcome of the storage operations, Close at any point) what a client holds is a function of where
@@ -119,31 +119,42 @@ Print Assumptions C09_no_lost_wakeup.
       picks at random among the ready cases of a select; a run in which a select with a ready closeC case keeps
       taking another ready case (flush's write-delay loop sends its command, tCompaction accepts it, ...) is a
       run of the model and of the code -- of probability 0.
-      Proved (Conc/LocksClose.v): call a step GOOD when it is not a new call (no edge out of Idle; the owner of a
-      Transaction handle does nothing but Discard it, its documented obligation) and the goroutine, when it
-      stands at a select that lists closeC, takes the closeC case (compactionError: its closeC case).  With
+      Proved (Conc/LocksClose.v, Conc/LocksLate.v): call a step GOOD when it is not a new call (no edge out of
+      Idle or IdleTr -- so no step at all of the owner of a Transaction handle that is between calls) and the
+      goroutine, when it stands at a select that lists closeC, takes the closeC case (compactionError: its
+      closeC case).  With
       measure N s = 200 * (sum over the clients below N of their distance to the end of the call) +
       10 * distance of mCompaction to its exit + distance of tCompaction to its exit + length of its wait
       queue + (compactionError still running):
         - every good step of a reachable state with closeC closed strictly decreases the measure;
         - hence every run of good steps has at most [measure] steps;
-        - as long as some client is not Idle a good step is enabled (from no_deadlock);
-        - hence a run of good steps that cannot be extended ends with every client Idle: Close has returned,
-          and so has every other call.
+        - as long as some client is inside a call a good step is enabled.  This rests on repair fb021ae: once
+          Close has read db.tr, an open transaction is either the one Close read and discards itself, or one
+          whose OpenTransaction is on its way to give it up (C09_close_never_waits_for_idle_owner); before the
+          repair Close could wait for the owner of a transaction returned on a closed DB
+          (C09_late_transaction_refuted);
+        - hence a run of good steps that cannot be extended ends with every client between calls (Idle, or
+          IdleTr with a handle of a transaction that is closed): Close has returned, and so has every other call.
       Outside: scheduler fairness, the random choice of select, wall-clock time. *)
 Theorem C09_close_good_step_decreases : forall N s a s', inv2 s -> closeC s = true -> support N s ->
   good s a = true -> step fixed s a = Some s' -> measure N s' < measure N s.
 Proof. exact good_step_decreases. Qed.
 Print Assumptions C09_close_good_step_decreases.
 
-Theorem C09_close_good_step_enabled : forall s, reachable fixed s -> closeC s = true -> pending s ->
+Theorem C09_close_never_waits_for_idle_owner : forall s, reachable fixed s ->
+  forall i o, crd (cli s i) = true -> trown s = Some o ->
+    late_pc (cli s o) = true \/ (cpre (cli s i) = true /\ closetgt s = Some o).
+Proof. exact invK_reachable. Qed.
+Print Assumptions C09_close_never_waits_for_idle_owner.
+
+Theorem C09_close_good_step_enabled : forall s, reachable fixed s -> closeC s = true -> in_call s ->
   exists a s', good s a = true /\ step fixed s a = Some s'.
 Proof. exact good_enabled. Qed.
 Print Assumptions C09_close_good_step_enabled.
 
 Theorem C09_close_terminates_partial : forall s, reachable fixed s -> closeC s = true ->
   exists B, forall l s', grun s l = Some s' ->
-    length l <= B /\ ((forall a, grun s' [a] = None) -> forall i, cli s' i = Idle).
+    length l <= B /\ ((forall a, grun s' [a] = None) -> forall i, cli s' i = Idle \/ cli s' i = IdleTr).
 Proof. exact close_terminates_core. Qed.
 Print Assumptions C09_close_terminates_partial.
 
